@@ -83,5 +83,10 @@ func plans() map[string]Plan {
 			{Name: "race-detector-pass", Engine: "e7", Race: true, Args: []string{"-job", "race"}, Shards: 4}},
 		QuickCap: 300, ThoroughCap: 3000,
 		Assumptions: append([]string{"the controlled scheduler explores sequentially consistent interleavings at the granularity of function entries, loop iterations and channel operations; races between plain memory accesses inside one such step and weak-memory effects are left to the free-running race-detector pass, which samples schedules", "the instrumentation preserves behaviour (checked by running the repository's tests against the instrumented build)"}, baseAssumptions...)}
+	p["C17"] = Plan{Prop: "C17",
+		Quick:    []Job{{Name: "cli", Engine: "e8", CLI: true}},
+		Thorough: []Job{{Name: "cli", Engine: "e8", CLI: true}},
+		QuickCap: 300, ThoroughCap: 3000,
+		Assumptions: append([]string{"the expected tallies come from the reference MARS (ref/mars.go) on the by-construction meaning of the generated warrior files", "random placement is explored with math/rand replaced through a build overlay of cmd/gmars/main.go (only the import line changes); cmd/vmars (GUI) does not build in this image and is out of reach"}, baseAssumptions...)}
 	return p
 }
